@@ -323,6 +323,9 @@ func (gn *GlobalNode) validate() error {
 	if gn.MaxDelegates <= 0 {
 		return fmt.Errorf("max_delegates is too small: %d", gn.MaxDelegates)
 	}
+	if !(gn.XPercent > 0 && gn.XPercent <= 1) {
+		return fmt.Errorf("x_percent must be in (0; 1]: %v", gn.XPercent)
+	}
 	if gn.NumSharderDelegatesRewarded < 0 {
 		return fmt.Errorf("%s cannot be negative: %d",
 			NumSharderDelegatesRewarded.String(), gn.NumSharderDelegatesRewarded)
